@@ -184,7 +184,7 @@ func c17Cache(p *Program, r *Report) {
 		broken("auth.Account is not a struct")
 	}
 	n := 0
-	for _, m := range append(p.Methods("auth", "IAMCache"), p.Methods("auth", "icache")...) {
+	for _, m := range append(p.Methods("auth", "IAMCache"), methodsOfType(p, "auth", c17CacheType(p))...) {
 		for _, b := range m.Blocks {
 			for _, in := range b.Instrs {
 				al, ok := in.(*ssa.Alloc)
@@ -227,9 +227,10 @@ func c17Cache(p *Program, r *Report) {
 	isSvc := func(c ssa.CallInstruction) bool { return isIAMCall(c) }
 	// a cache mutator is a method of the cache type that writes its map (whatever it is called): an insertion
 	// if it can store an entry without having found one, a plain mutation (update in place, delete) otherwise
+	cacheT := c17CacheType(p)
 	isCacheMut := func(c ssa.CallInstruction) (bool, bool) { // (mutation, insertion)
 		g := c.Common().StaticCallee()
-		if g == nil || g.Signature.Recv() == nil || typeStr(g.Signature.Recv().Type()) != "*auth.icache" {
+		if g == nil || g.Signature.Recv() == nil || cacheT == nil || !types.Identical(derefType(g.Signature.Recv().Type()), cacheT) {
 			return false, false
 		}
 		var found []edge
@@ -331,8 +332,32 @@ func c17Lookup(p *Program, r *Report) {
 	// on the non-root edge every return is the IAM call's result
 	var root []edge
 	for _, ce := range condEdgesOf(g) {
-		if ce.isEqNeq && ce.atoms["param:access"] && ce.atoms["field:Access"] && ce.atoms["field:root"] {
-			root = append(root, ce.holds)
+		// the root test: the access key parameter against the configured root account's Access
+		if ce.isEqNeq && ce.binop != nil && ce.atoms["field:Access"] {
+			isRootAccess := func(v ssa.Value) bool {
+				var st types.Type
+				switch x := v.(type) {
+				case *ssa.UnOp:
+					if fa, ok := x.X.(*ssa.FieldAddr); ok {
+						st = fa.X.Type()
+					}
+				case *ssa.Field:
+					st = x.X.Type()
+				}
+				if st == nil {
+					return false
+				}
+				if pt, ok := st.Underlying().(*types.Pointer); ok {
+					st = pt.Elem()
+				}
+				nt, ok := types.Unalias(st).(*types.Named)
+				return ok && nt.Obj().Name() == "RootUserConfig"
+			}
+			_, px := ce.binop.X.(*ssa.Parameter)
+			_, py := ce.binop.Y.(*ssa.Parameter)
+			if (px && isRootAccess(ce.binop.Y)) || (py && isRootAccess(ce.binop.X)) {
+				root = append(root, ce.holds)
+			}
 		}
 	}
 	bad := len(root) == 0
@@ -354,9 +379,12 @@ func c17Lookup(p *Program, r *Report) {
 	r.Check(!bad, "R-C17-5", fnName(g)+"/non-root<-iam", p.Pos(g.Pos()), "every non-root lookup is answered by iam.GetUserAccount", "a non-root access key can be answered without asking the IAM service (memoised or synthesised account)")
 	// the argument is the requested key
 	okArg := false
+	// (the function's string parameter: the same one the root test compares)
 	for _, rt := range terminalRoots(Origins(callArgs(iam[0])[0], nil)) {
-		if rt.Kind == "param" && rt.Desc == "access" {
-			okArg = true
+		if prm, isP := rt.Val.(*ssa.Parameter); rt.Kind == "param" && isP && prm.Parent() == g {
+			if bt, isB := prm.Type().Underlying().(*types.Basic); isB && bt.Kind() == types.String {
+				okArg = true
+			}
 		}
 	}
 	r.Check(okArg, "R-C17-5", fnName(g)+"/lookup-key", p.Pos(iam[0].Pos()), "looked up by the presented access key", "the IAM lookup is not keyed by the presented access key")
@@ -412,4 +440,55 @@ func controlsC17() []Control {
 		{Name: "storeIAM writes the store file in place", Rule: "R-C17-7", File: "auth/iam_internal.go",
 			Old: "\t\terr = s.writeTempFile(b)\n\t\tif err != nil {", New: "\t\terr = os.WriteFile(fname, b, iamMode)\n\t\tif err != nil {", Expect: "writeTempFile"},
 	}
+}
+
+func derefType(t types.Type) types.Type {
+	if pt, ok := t.Underlying().(*types.Pointer); ok {
+		return pt.Elem()
+	}
+	return t
+}
+
+// c17CacheType: the type of the account cache, found by role: the struct type of package auth that a field of
+// IAMCache points to and that holds a map (whatever the type and its fields are called).
+func c17CacheType(p *Program) types.Type {
+	pk := p.Pkg("auth")
+	obj := pk.Types.Scope().Lookup("IAMCache")
+	if obj == nil {
+		return nil
+	}
+	st, ok := obj.Type().Underlying().(*types.Struct)
+	if !ok {
+		return nil
+	}
+	for i := 0; i < st.NumFields(); i++ {
+		ft := derefType(st.Field(i).Type())
+		fs, ok := ft.Underlying().(*types.Struct)
+		if !ok {
+			continue
+		}
+		if nt, isN := types.Unalias(ft).(*types.Named); !isN || nt.Obj().Pkg() != pk.Types {
+			continue
+		}
+		for j := 0; j < fs.NumFields(); j++ {
+			if _, isMap := fs.Field(j).Type().Underlying().(*types.Map); isMap {
+				return ft
+			}
+		}
+	}
+	return nil
+}
+
+// methodsOfType: the module's methods whose receiver is t or *t.
+func methodsOfType(p *Program, pkg string, t types.Type) []*ssa.Function {
+	var out []*ssa.Function
+	if t == nil {
+		return out
+	}
+	for _, f := range p.FuncsIn(pkg) {
+		if f.Parent() == nil && f.Signature.Recv() != nil && types.Identical(derefType(f.Signature.Recv().Type()), t) {
+			out = append(out, f)
+		}
+	}
+	return out
 }
